@@ -684,7 +684,8 @@ func (s *scanningState) scan(line []byte) (bool, error) {
 		// output of raceHeaderFooter.
 		s.state = looking
 		s.prefix = nil
-		return false, nil
+		// The line may itself start a stack dump or another race report.
+		return s.scan(line)
 
 	case gotRaceHeader2:
 		if match := reRaceOperationHeader.FindSubmatch(trimmed); match != nil {
